@@ -44,7 +44,7 @@ def loopFuel : Nat := 130
 /-- `usize` modulus -/
 def usz : Nat := 2 ^ 64
 /-- `index -= k` on `usize` in release mode (wraps) -/
-def subIdx (i k : Nat) : Nat := (i + (usz - k)) % usz
+def subIdx (i k : Nat) : Nat := ((usz - k) + i) % usz   -- big literal on the left: `x + 2^64` under `%` makes kernel `whnf` unfold `Nat.add` on the literal
 
 /-- `*buf.get_unchecked_mut(i) = v` -/
 def setU (b : Buf) (i v : Nat) : Res Buf := if i < b.length then .ok (b.set i v) else .fault
@@ -184,6 +184,10 @@ def formattedSize (feats : Features) (t : IntTy) : Nat :=
 /-- `Options::buffer_size_const::<T, FORMAT>()` -/
 def bufferSizeConst (feats : Features) (t : IntTy) (radix : Nat) : Nat :=
   if radix = 10 then formattedSizeDecimal t else formattedSize feats t
+/-- `Options::buffer_size_const::<T, FORMAT>()` as it is since the repair of the unsigned `+` defect: one more byte
+when the `format` feature is on and the format requires a mantissa sign -/
+def bufferSizeConstFmt (feats : Features) (t : IntTy) (radix : Nat) (reqSign : Bool) : Nat :=
+  bufferSizeConst feats t radix + (if feats.format && reqSign then 1 else 0)
 
 /-! ## compact.rs -/
 
@@ -244,8 +248,55 @@ def naiveCount (bits radix value : Nat) : Res Nat :=
     else Res.ok x) >>= fun y =>
    countLoop (radix % 2 ^ 32 % 2 ^ bits) 1 loopFuel y.1 y.2 >>= fun z => Res.ok z.2)
 
+/-! ## literal constants of the decimal writers (tied to the source text by `Props/C03Tie.lean`) -/
+namespace Lit
+/-- `fast_log10`: `(log2 * 1233) >> 12` -/
+def log10Mul : Nat := 1233
+def log10Shr : Nat := 12
+/-- `next2`: `(*prod & LO32) * 100`, `*prod >> 32` -/
+def next2Mul : Nat := 100
+def hi32 : Nat := 32
+/-- `u128_divrem_10_10pow10` -/
+def e10D : Nat := 10000000000
+def e10Fast : Nat := 18889465931478580854784
+def e10FastShr : Nat := 10
+def e10Factor : Nat := 73075081866545145910184241635814150983
+def e10FactorShr : Nat := 31
+/-- jeaiii multipliers and shifts of `write_digits!` -/
+def m34 : Nat := 42949673
+def m56 : Nat := 429497
+def m78 : Nat := 281474978
+def s78 : Nat := 16
+def m9 : Nat := 1441151882
+def s9 : Nat := 25
+def m10 : Nat := 1441151881
+def s10 : Nat := 25
+def m10u64 : Nat := 11529215047
+def s10u64 : Nat := 28
+/-- `write_n!(@4sub …)`: `% 10000`, `/ 100` -/
+def alex4 : Nat := 10000
+def alex2 : Nat := 100
+/-- comparison-tree thresholds of `from_u8 … from_u128` -/
+def t1 : Nat := 10
+def t2 : Nat := 100
+def t4 : Nat := 10000
+def t6 : Nat := 1000000
+def t8 : Nat := 100000000
+def t9 : Nat := 1000000000
+def t10 : Nat := 10000000000
+def t20 : Nat := 100000000000000000000
+def t30 : Nat := 1000000000000000000000000000000
+/-- the `&mut buffer[..N]` re-slices -/
+def sliceU8 : Nat := 3
+def sliceU16 : Nat := 5
+def sliceU32 : Nat := 10
+def sliceI64 : Nat := 19
+def sliceU64 : Nat := 20
+def sliceU128 : Nat := 39
+end Lit
+
 /-- `fast_log10` -/
-def fastLog10 (bits x : Nat) : Nat := fastLog2 bits x * 1233 / 2 ^ 12
+def fastLog10 (bits x : Nat) : Nat := fastLog2 bits x * Lit.log10Mul / 2 ^ Lit.log10Shr
 
 /-- `fast_digit_count::TABLE` -/
 def fastDigitCountTable : List Nat :=
@@ -333,7 +384,7 @@ def mulhi128 (x y : Nat) : Nat :=
   w128 (w128 (w128 (x1 * y1) + w2) + w3)
 
 /-- `(n - quot * d as u128) as u64` with wrapping u128 arithmetic -/
-def remOf (n quot d : Nat) : Nat := w128 (n + (2 ^ 128 - w128 (quot * d))) % 2 ^ 64
+def remOf (n quot d : Nat) : Nat := w128 ((2 ^ 128 - w128 (quot * d)) + n) % 2 ^ 64
 
 def pow2U128Divrem (n mask shr : Nat) : Res (Nat × Nat) :=
   if shr ≥ 128 then .panic else .ok (n / 2 ^ shr, Nat.land mask (n % 2 ^ 64))
@@ -353,18 +404,19 @@ def moderateU128Divrem (n d factor factorShr : Nat) : Res (Nat × Nat) :=
   let quot := mulhi128 n factor / 2 ^ factorShr
   .ok (quot, remOf n quot d)
 
+/-- loop body of `slow_u128_divrem`: `r = (r << 1) | (q >> 127)` -/
+def slowR1 (q r : Nat) : Nat := Nat.lor (w128 (r * 2)) (q / 2 ^ 127)
+/-- `q = (q << 1) | carry as u128` -/
+def slowQ1 (q carry : Nat) : Nat := Nat.lor (w128 (q * 2)) carry
+/-- `s = (d.wrapping_sub(r).wrapping_sub(1) as i128) >> 127` is all ones iff the top bit is set; `carry = (s & 1)` -/
+def slowS (d r1 : Nat) : Nat := w128 ((2 ^ 128 - 1) + w128 ((2 ^ 128 - r1) + d)) / 2 ^ 127
+/-- `r -= (d as u128) & s as u128` -/
+def slowR2 (d r1 : Nat) : Nat := if slowS d r1 = 1 then w128 ((2 ^ 128 - d) + r1) else r1
+
 /-- the `while i < sr` loop of `slow_u128_divrem`; state `(q, r, carry)` -/
 def slowLoop (d : Nat) : Nat → Nat → Nat → Nat → Nat × Nat × Nat
   | 0, q, r, carry => (q, r, carry)
-  | k + 1, q, r, carry =>
-    let r := Nat.lor (w128 (r * 2)) (q / 2 ^ 127)
-    let q := Nat.lor (w128 (q * 2)) carry
-    -- s = (d.wrapping_sub(r).wrapping_sub(1) as i128) >> 127 : all ones iff the top bit is set
-    let t := w128 (w128 (d + (2 ^ 128 - r)) + (2 ^ 128 - 1))
-    let sbit := t / 2 ^ 127
-    let carry := sbit
-    let r := if sbit = 1 then w128 (r + (2 ^ 128 - d)) else r
-    slowLoop d k q r carry
+  | k + 1, q, r, carry => slowLoop d k (slowQ1 q carry) (slowR2 d (slowR1 q r)) (slowS d (slowR1 q r))
 
 def slowU128Divrem (n d dCtlz : Nat) : Res (Nat × Nat) :=
   let high := n / 2 ^ 64 % 2 ^ 64
@@ -417,18 +469,16 @@ def digitCountU128 (feats : Features) (value radix : Nat) : Res Nat :=
   else if radix = 16 then .ok (fastLog2 128 value / 4 + 1)
   else if radix = 32 then .ok (fastLog2 128 value / 5 + 1)
   else if value ≤ 2 ^ 64 - 1 then naiveCount 64 radix (value % 2 ^ 64)
-  else do
-    let step := u64Step feats radix
-    let (value, _) ← u128Divrem feats value radix
-    if value ≤ 2 ^ 64 - 1 then
-      let c ← naiveCount 64 radix (value % 2 ^ 64)
-      pure (step + c)
+  else
+    -- `let step = u64_step(radix); let (value, _) = u128_divrem(self, radix); let mut count = step;`
+    u128Divrem feats value radix >>= fun q1 =>
+    if q1.1 ≤ 2 ^ 64 - 1 then
+      naiveCount 64 radix (q1.1 % 2 ^ 64) >>= fun c => .ok (u64Step feats radix + c)
     else
-      let (value, _) ← u128Divrem feats value radix
-      if value ≠ 0 then
-        let c ← naiveCount 64 radix (value % 2 ^ 64)
-        pure (step + step + c)
-      else pure (step + step)
+      u128Divrem feats q1.1 radix >>= fun q2 =>
+      if q2.1 ≠ 0 then
+        naiveCount 64 radix (q2.1 % 2 ^ 64) >>= fun c => .ok (u64Step feats radix + u64Step feats radix + c)
+      else .ok (u64Step feats radix + u64Step feats radix)
 
 def digitCount (feats : Features) (bits value radix : Nat) : Res Nat :=
   if bits = 128 then digitCountU128 feats value radix else digitCountSmall bits value radix
@@ -494,14 +544,12 @@ def writeDigits (bits value radix : Nat) (buf : Buf) (index : Nat) : Res (Buf ×
    if y.1 < radix % 2 ^ bits then put1 y.2.1 y.2.2 (y.1 % 2 ^ 32)
    else put2 radix y.2.1 y.2.2 (2 * y.1 % usz))
 
-/-- `write_step_digits` -/
-def writeStepDigits (bits value radix : Nat) (buf : Buf) (index step : Nat) : Res (Buf × Nat) := do
-  let start := index
-  let (buf, index) ← writeDigits bits value radix buf index
-  let end_ := start - step   -- saturating_sub
-  -- `&mut i!(buffer[end..index])`: unchecked range
-  if end_ ≤ index ∧ index ≤ buf.length then
-    .ok (buf.take end_ ++ List.replicate (index - end_) 48 ++ buf.drop index, end_)
+/-- `write_step_digits`: `write_digits`, then `buffer[end..index].fill(b'0')` with `end = start.saturating_sub(step)`
+(an unchecked range) -/
+def writeStepDigits (bits value radix : Nat) (buf : Buf) (index step : Nat) : Res (Buf × Nat) :=
+  writeDigits bits value radix buf index >>= fun w =>
+  if index - step ≤ w.2 ∧ w.2 ≤ w.1.length then
+    .ok (w.1.take (index - step) ++ List.replicate (w.2 - (index - step)) 48 ++ w.1.drop w.2, index - step)
   else .fault
 
 /-- `get_table` (`table_radix.rs` / `table_binary.rs`): which radices have a table under the feature set -/
@@ -520,29 +568,24 @@ def algorithm (bits value radix : Nat) (buffer : Buf) : Res (Buf × Nat) :=
   Res.ok (w.1 ++ buffer.drop count, count)
 
 /-- `algorithm_u128::<FORMAT, MASK, SHIFT>(value, table, buffer)` -/
-def algorithmU128 (feats : Features) (value radix : Nat) (buffer : Buf) : Res (Buf × Nat) := do
+def algorithmU128 (feats : Features) (value radix : Nat) (buffer : Buf) : Res (Buf × Nat) :=
   if ¬ validRadix feats radix then .panic else
   if ¬ (2 ≤ radix ∧ radix ≤ 36) then .panic else
   if tableLen radix < radix * radix * 2 % 2 ^ 32 then .panic else
   if value ≤ 2 ^ 64 - 1 then algorithm 64 (value % 2 ^ 64) radix buffer else
-  let count ← digitCountU128 feats value radix
+  digitCountU128 feats value radix >>= fun count =>
   if ¬ count ≤ buffer.length then .panic else
-  let sub := buffer.take count
-  let rest := buffer.drop count
-  let step := u64Step feats radix
-  let (value, low) ← u128Divrem feats value radix
-  let (sub, index) ← writeStepDigits 64 low radix sub count step
-  if value ≤ 2 ^ 64 - 1 then
-    let (sub, _) ← writeDigits 64 (value % 2 ^ 64) radix sub index
-    pure (sub ++ rest, count)
+  -- `let buffer = &mut buffer[..count]`; `let (value, low) = u128_divrem(value, radix)`
+  u128Divrem feats value radix >>= fun q1 =>
+  writeStepDigits 64 q1.2 radix (buffer.take count) count (u64Step feats radix) >>= fun w1 =>
+  if q1.1 ≤ 2 ^ 64 - 1 then
+    writeDigits 64 (q1.1 % 2 ^ 64) radix w1.1 w1.2 >>= fun w2 => .ok (w2.1 ++ buffer.drop count, count)
   else
-    let (value, mid) ← u128Divrem feats value radix
-    let (sub, index) ← writeStepDigits 64 mid radix sub index step
-    if index ≠ 0 then
-      let (sub, _) ← writeDigits 64 (value % 2 ^ 64) radix sub index
-      pure (sub ++ rest, count)
-    else
-      pure (sub ++ rest, count)
+    u128Divrem feats q1.1 radix >>= fun q2 =>
+    writeStepDigits 64 q2.2 radix w1.1 w1.2 (u64Step feats radix) >>= fun w2 =>
+    if w2.2 ≠ 0 then
+      writeDigits 64 (q2.1 % 2 ^ 64) radix w2.1 w2.2 >>= fun w3 => .ok (w3.1 ++ buffer.drop count, count)
+    else .ok (w2.1 ++ buffer.drop count, count)
 
 /-- `Radix::radix` -/
 def radixWrite (feats : Features) (bits value radix : Nat) (buffer : Buf) : Res (Buf × Nat) :=
@@ -550,198 +593,149 @@ def radixWrite (feats : Features) (bits value radix : Nat) (buffer : Buf) : Res 
   else if bits = 128 then algorithmU128 feats value radix buffer
   else algorithm bits value radix buffer
 
-/-! ## jeaiii.rs -/
+/-! ## jeaiii.rs
+
+Written with explicit binds and projections (no tuple patterns) so that every definition unfolds by `rfl`. -/
 
 /-- `next2(&mut prod)`: returns the new `prod` and the two digits -/
 def next2 (prod : Nat) : Nat × Nat :=
-  let p := (prod % 2 ^ 32) * 100 % 2 ^ 64
-  (p, p / 2 ^ 32 % 2 ^ 32)
+  (prod % 2 ^ 32 * Lit.next2Mul % 2 ^ 64, prod % 2 ^ 32 * Lit.next2Mul % 2 ^ 64 / 2 ^ Lit.hi32 % 2 ^ 32)
 
 /-- `write_n!(@1 buffer, index, n)` -/
-def wr1 (buf : Buf) (index n : Nat) : Res (Buf × Nat) := do
-  let buf ← setC buf index (digitToCharConst10 n)
-  pure (buf, index + 1)
+def wr1 (buf : Buf) (index n : Nat) : Res (Buf × Nat) :=
+  setC buf index (digitToCharConst10 n) >>= fun b => .ok (b, index + 1)
 
 /-- `write_n!(@2 buffer, index, r)`: table reads unchecked, buffer writes checked -/
-def wr2 (buf : Buf) (index r : Nat) : Res (Buf × Nat) := do
-  let r := r % usz
-  let c ← tableGet 10 r
-  let buf ← setC buf index c
-  let c ← tableGet 10 (r + 1)
-  let buf ← setC buf (index + 1) c
-  pure (buf, index + 2)
+def wr2 (buf : Buf) (index r : Nat) : Res (Buf × Nat) :=
+  tableGet 10 (r % usz) >>= fun c0 => setC buf index c0 >>= fun b0 =>
+  tableGet 10 (r % usz + 1) >>= fun c1 => setC b0 (index + 1) c1 >>= fun b1 => .ok (b1, index + 2)
 
 /-- `for _ in 0..remaining { print_n!(@2 buffer, index, prod) }` -/
-def print2s : Nat → Buf → Nat → Nat → Res (Buf × Nat × Nat)
-  | 0, buf, index, prod => .ok (buf, index, prod)
-  | k + 1, buf, index, prod => do
-    let (prod, d) := next2 prod
-    let (buf, index) ← wr2 buf index (d * 2 % 2 ^ 32)
-    print2s k buf index prod
+def print2s : Nat → Buf → Nat → Nat → Res (Buf × Nat)
+  | 0, buf, index, _ => .ok (buf, index)
+  | k + 1, buf, index, prod =>
+    wr2 buf index ((next2 prod).2 * 2 % 2 ^ 32) >>= fun w => print2s k w.1 w.2 (next2 prod).1
 
-/-- `print_n!(@n buffer, index, n, magic, shift, remaining)` -/
-def printN (buf : Buf) (n magic shift remaining : Nat) : Res (Buf × Nat) := do
-  let prod := (n % 2 ^ 64) * magic % 2 ^ 64
-  let prod := prod / 2 ^ shift
-  let two := prod / 2 ^ 32 % 2 ^ 32
-  if two < 10 then
-    let (buf, index) ← wr1 buf 0 two
-    let (buf, index, _) ← print2s remaining buf index prod
-    pure (buf, index)
+/-- `print_n!(@n buffer, index, n, magic, shift, remaining)` with `index = 0` -/
+def printN (buf : Buf) (n magic shift remaining : Nat) : Res (Buf × Nat) :=
+  if n % 2 ^ 64 * magic % 2 ^ 64 / 2 ^ shift / 2 ^ Lit.hi32 % 2 ^ 32 < 10 then
+    wr1 buf 0 (n % 2 ^ 64 * magic % 2 ^ 64 / 2 ^ shift / 2 ^ Lit.hi32 % 2 ^ 32) >>= fun w =>
+      print2s remaining w.1 w.2 (n % 2 ^ 64 * magic % 2 ^ 64 / 2 ^ shift)
   else
-    let (buf, index) ← wr2 buf 0 (two * 2 % 2 ^ 32)
-    let (buf, index, _) ← print2s remaining buf index prod
-    pure (buf, index)
+    wr2 buf 0 (n % 2 ^ 64 * magic % 2 ^ 64 / 2 ^ shift / 2 ^ Lit.hi32 % 2 ^ 32 * 2 % 2 ^ 32) >>= fun w =>
+      print2s remaining w.1 w.2 (n % 2 ^ 64 * magic % 2 ^ 64 / 2 ^ shift)
 
 /-- `write_digits!(@1 …)` -/
 def wd1 (buf : Buf) (n : Nat) : Res (Buf × Nat) := wr1 buf 0 n
 /-- `write_digits!(@2 …)`: `$n * 2` is computed in the type of `n` -/
 def wd2 (bits : Nat) (buf : Buf) (n : Nat) : Res (Buf × Nat) := wr2 buf 0 (n * 2 % 2 ^ bits)
-/-- `write_digits!(@3 …)` (u8 only) -/
-def wd3 (buf : Buf) (n : Nat) : Res (Buf × Nat) := do
-  let y := (n % 2 ^ 64) * 42949673 % 2 ^ 64
-  let (buf, _) ← wr1 buf 0 (y / 2 ^ 32)
-  let (y, d) := next2 y
-  let _ := y
-  wr2 buf 1 (d * 2 % 2 ^ 32)
-def wd34 (buf : Buf) (n : Nat) : Res (Buf × Nat) := printN buf n 42949673 0 1
+/-- `write_digits!(@3 …)` (u8 only): `write_n!(@1 …, 0, y >> 32)`, `write_n!(@2 …, 1, next2(&mut y) * 2)` -/
+def wd3 (buf : Buf) (n : Nat) : Res (Buf × Nat) :=
+  wr1 buf 0 (n % 2 ^ 64 * Lit.m34 % 2 ^ 64 / 2 ^ Lit.hi32) >>= fun w =>
+    print2s 1 w.1 1 (n % 2 ^ 64 * Lit.m34 % 2 ^ 64)
+def wd34 (buf : Buf) (n : Nat) : Res (Buf × Nat) := printN buf n Lit.m34 0 1
 /-- `write_digits!(@5 …)` -/
-def wd5 (buf : Buf) (n : Nat) : Res (Buf × Nat) := do
-  let y := (n % 2 ^ 64) * 429497 % 2 ^ 64
-  let (buf, _) ← wr1 buf 0 (y / 2 ^ 32)
-  let (y, d) := next2 y
-  let (buf, _) ← wr2 buf 1 (d * 2 % 2 ^ 32)
-  let (_, d) := next2 y
-  wr2 buf 3 (d * 2 % 2 ^ 32)
-def wd56 (buf : Buf) (n : Nat) : Res (Buf × Nat) := printN buf n 429497 0 2
-def wd78 (buf : Buf) (n : Nat) : Res (Buf × Nat) := printN buf n 281474978 16 3
-/-- four `write_n!(@2 …, next2(&mut y) * 2)` at `index, index+2, index+4, index+6` -/
-def tail4 (buf : Buf) (index y : Nat) : Res (Buf × Nat) := do
-  let (y, d) := next2 y
-  let (buf, _) ← wr2 buf index (d * 2 % 2 ^ 32)
-  let (y, d) := next2 y
-  let (buf, _) ← wr2 buf (index + 2) (d * 2 % 2 ^ 32)
-  let (y, d) := next2 y
-  let (buf, _) ← wr2 buf (index + 4) (d * 2 % 2 ^ 32)
-  let (_, d) := next2 y
-  wr2 buf (index + 6) (d * 2 % 2 ^ 32)
+def wd5 (buf : Buf) (n : Nat) : Res (Buf × Nat) :=
+  wr1 buf 0 (n % 2 ^ 64 * Lit.m56 % 2 ^ 64 / 2 ^ Lit.hi32) >>= fun w =>
+    print2s 2 w.1 1 (n % 2 ^ 64 * Lit.m56 % 2 ^ 64)
+def wd56 (buf : Buf) (n : Nat) : Res (Buf × Nat) := printN buf n Lit.m56 0 2
+def wd78 (buf : Buf) (n : Nat) : Res (Buf × Nat) := printN buf n Lit.m78 Lit.s78 3
 /-- `write_digits!(@9 …)` -/
-def wd9 (buf : Buf) (n : Nat) : Res (Buf × Nat) := do
-  let y := (n % 2 ^ 64) * 1441151882 % 2 ^ 64
-  let y := y / 2 ^ 25
-  let (buf, _) ← wr1 buf 0 (y / 2 ^ 32)
-  tail4 buf 1 y
+def wd9 (buf : Buf) (n : Nat) : Res (Buf × Nat) :=
+  wr1 buf 0 (n % 2 ^ 64 * Lit.m9 % 2 ^ 64 / 2 ^ Lit.s9 / 2 ^ Lit.hi32) >>= fun w =>
+    print2s 4 w.1 1 (n % 2 ^ 64 * Lit.m9 % 2 ^ 64 / 2 ^ Lit.s9)
 /-- `write_digits!(@10 …)` (u32 only) -/
-def wd10 (buf : Buf) (n : Nat) : Res (Buf × Nat) := do
-  let y := (n % 2 ^ 64) * 1441151881 % 2 ^ 64
-  let y := y / 2 ^ 25
-  let (buf, _) ← wr2 buf 0 ((y / 2 ^ 32) * 2 % 2 ^ 64)
-  tail4 buf 2 y
+def wd10 (buf : Buf) (n : Nat) : Res (Buf × Nat) :=
+  wr2 buf 0 (n % 2 ^ 64 * Lit.m10 % 2 ^ 64 / 2 ^ Lit.s10 / 2 ^ Lit.hi32 * 2 % 2 ^ 64) >>= fun w =>
+    print2s 4 w.1 2 (n % 2 ^ 64 * Lit.m10 % 2 ^ 64 / 2 ^ Lit.s10)
 /-- `write_digits!(@10u64 …)` -/
-def wd10u64 (buf : Buf) (n : Nat) : Res (Buf × Nat) := do
-  let prod := (n % 2 ^ 128) * 11529215047 % 2 ^ 128
-  let y := prod / 2 ^ 28 % 2 ^ 64
-  let (buf, _) ← wr2 buf 0 ((y / 2 ^ 32) * 2 % 2 ^ 64)
-  tail4 buf 2 y
+def wd10u64 (buf : Buf) (n : Nat) : Res (Buf × Nat) :=
+  wr2 buf 0 (n % 2 ^ 128 * Lit.m10u64 % 2 ^ 128 / 2 ^ Lit.s10u64 % 2 ^ 64 / 2 ^ Lit.hi32 * 2 % 2 ^ 64) >>= fun w =>
+    print2s 4 w.1 2 (n % 2 ^ 128 * Lit.m10u64 % 2 ^ 128 / 2 ^ Lit.s10u64 % 2 ^ 64)
 
-/-- `write_n!(@2sub buffer, index, r)` -/
-def wr2sub (buf : Buf) (index r : Nat) : Res (Buf × Nat) := do
-  let index := subIdx index 2
-  let (buf, _) ← wr2 buf index r
-  pure (buf, index)
-/-- `write_n!(@4sub buffer, index, value)` on a `u64` value; returns buffer, index, value -/
-def wr4sub (buf : Buf) (index value : Nat) : Res (Buf × Nat × Nat) := do
-  let r := value % 10000
-  let value := value / 10000
-  let r1 := 2 * (r / 100) % 2 ^ 64
-  let r2 := 2 * (r % 100) % 2 ^ 64
-  let (buf, index) ← wr2sub buf index r2
-  let (buf, index) ← wr2sub buf index r1
-  pure (buf, index, value)
+/-- `write_n!(@2sub buffer, index, r)`: `index -= 2`, then `write_n!(@2 …)`; returns the new index -/
+def wr2sub (buf : Buf) (index r : Nat) : Res (Buf × Nat) :=
+  wr2 buf (subIdx index 2) r >>= fun w => .ok (w.1, subIdx index 2)
+/-- `write_n!(@4sub buffer, index, value)` on a `u64` value (the caller divides `value` by 10000) -/
+def wr4sub (buf : Buf) (index value : Nat) : Res (Buf × Nat) :=
+  wr2sub buf index (2 * (value % Lit.alex4 % Lit.alex2) % 2 ^ 64) >>= fun w =>
+    wr2sub w.1 w.2 (2 * (value % Lit.alex4 / Lit.alex2) % 2 ^ 64)
 /-- `write_digits!(@10alex buffer, n, offset)` -/
-def wd10alex (buf : Buf) (n offset : Nat) : Res (Buf × Nat) := do
-  let index := (10 + offset) % usz
-  let (buf, index, value) ← wr4sub buf index n
-  let (buf, index, value) ← wr4sub buf index value
-  let (buf, _) ← wr2sub buf index (value * 2 % 2 ^ 64)
-  pure (buf, (10 + offset) % usz)
+def wd10alex (buf : Buf) (n offset : Nat) : Res (Buf × Nat) :=
+  wr4sub buf ((10 + offset) % usz) n >>= fun w1 =>
+  wr4sub w1.1 w1.2 (n / Lit.alex4) >>= fun w2 =>
+  wr2sub w2.1 w2.2 (n / Lit.alex4 / Lit.alex4 * 2 % 2 ^ 64) >>= fun w3 =>
+  .ok (w3.1, (10 + offset) % usz)
 
 /-- run `f` on `&mut buffer[..n]` and put the slice back -/
-def onSlice (buffer : Buf) (n : Nat) (f : Buf → Res (Buf × Nat)) : Res (Buf × Nat) := do
-  let sub ← sliceTo buffer n
-  let (sub, k) ← f sub
-  pure (sub ++ buffer.drop n, k)
+def onSlice (buffer : Buf) (n : Nat) (f : Buf → Res (Buf × Nat)) : Res (Buf × Nat) :=
+  sliceTo buffer n >>= fun sub => f sub >>= fun w => .ok (w.1 ++ buffer.drop n, w.2)
 
 def fromU8 (n : Nat) (buffer : Buf) : Res (Buf × Nat) :=
-  onSlice buffer 3 fun buf =>
-    if n ≥ 100 then wd3 buf n else if n ≥ 10 then wd2 8 buf n else wd1 buf n
+  onSlice buffer Lit.sliceU8 fun buf =>
+    if n ≥ Lit.t2 then wd3 buf n else if n ≥ Lit.t1 then wd2 8 buf n else wd1 buf n
 
 def fromU16 (n : Nat) (buffer : Buf) : Res (Buf × Nat) :=
-  onSlice buffer 5 fun buf =>
-    if n ≥ 10000 then wd5 buf n else if n ≥ 100 then wd34 buf n
-    else if n ≥ 10 then wd2 16 buf n else wd1 buf n
+  onSlice buffer Lit.sliceU16 fun buf =>
+    if n ≥ Lit.t4 then wd5 buf n else if n ≥ Lit.t2 then wd34 buf n
+    else if n ≥ Lit.t1 then wd2 16 buf n else wd1 buf n
+
+/-- the `1 to 4 digits` subtree shared by `from_u32`, `from_u64_impl`, `from_u128` -/
+def small4 (bits : Nat) (buf : Buf) (n : Nat) : Res (Buf × Nat) :=
+  if n ≥ Lit.t2 then wd34 buf n else if n ≥ Lit.t1 then wd2 bits buf n else wd1 buf n
 
 def fromU32 (n : Nat) (buffer : Buf) : Res (Buf × Nat) :=
-  onSlice buffer 10 fun buf =>
-    if n < 10000 then
-      if n ≥ 100 then wd34 buf n else if n ≥ 10 then wd2 32 buf n else wd1 buf n
-    else if n < 100000000 then
-      if n ≥ 1000000 then wd78 buf n else wd56 buf n
+  onSlice buffer Lit.sliceU32 fun buf =>
+    if n < Lit.t4 then small4 32 buf n
+    else if n < Lit.t8 then
+      if n ≥ Lit.t6 then wd78 buf n else wd56 buf n
     else
-      if n ≥ 1000000000 then wd10 buf n else wd9 buf n
+      if n ≥ Lit.t9 then wd10 buf n else wd9 buf n
+
+/-- the `5 to 10 digits` subtree shared by `from_u64_impl` and `from_u128` -/
+def mid10 (buf : Buf) (n : Nat) : Res (Buf × Nat) :=
+  if n ≥ Lit.t9 then wd10u64 buf n
+  else if n ≥ Lit.t8 then wd9 buf n
+  else if n ≥ Lit.t6 then wd78 buf n
+  else wd56 buf n
 
 def fromU64Impl (n : Nat) (buffer : Buf) (isSigned : Bool) : Res (Buf × Nat) :=
-  onSlice buffer (if isSigned then 19 else 20) fun buf =>
-    if n < 10000 then
-      if n ≥ 100 then wd34 buf n else if n ≥ 10 then wd2 64 buf n else wd1 buf n
-    else if n < 10000000000 then
-      if n ≥ 1000000000 then wd10u64 buf n
-      else if n ≥ 100000000 then wd9 buf n
-      else if n ≥ 1000000 then wd78 buf n
-      else wd56 buf n
-    else do
-      let hi := n / 10000000000 % 2 ^ 32
-      let lo := n % 10000000000
-      let (buf, offset) ← fromU32 hi buf
-      wd10alex buf lo offset
+  onSlice buffer (if isSigned then Lit.sliceI64 else Lit.sliceU64) fun buf =>
+    if n < Lit.t4 then small4 64 buf n
+    else if n < Lit.t10 then mid10 buf n
+    else
+      -- `hi = (n / FACTOR) as u32`, `lo = n % FACTOR`
+      fromU32 (n / Lit.t10 % 2 ^ 32) buf >>= fun w => wd10alex w.1 (n % Lit.t10) w.2
 
 def fromU64 (n : Nat) (buffer : Buf) : Res (Buf × Nat) := fromU64Impl n buffer false
 def fromI64 (n : Nat) (buffer : Buf) : Res (Buf × Nat) := fromU64Impl n buffer true
 
 /-- `div128_rem_1e10` -/
 def div128Rem1e10 (n : Nat) : Res (Nat × Nat) :=
-  fastU128Divrem n 10000000000 18889465931478580854784 10 73075081866545145910184241635814150983 31
+  fastU128Divrem n Lit.e10D Lit.e10Fast Lit.e10FastShr Lit.e10Factor Lit.e10FactorShr
 
 def fromU128 (n : Nat) (buffer : Buf) : Res (Buf × Nat) :=
-  onSlice buffer 39 fun buf =>
-    if n < 10000 then
-      if n ≥ 100 then wd34 buf n else if n ≥ 10 then wd2 128 buf n else wd1 buf n
-    else if n < 10000000000 then
-      if n ≥ 1000000000 then wd10u64 buf n
-      else if n ≥ 100000000 then wd9 buf n
-      else if n ≥ 1000000 then wd78 buf n
-      else wd56 buf n
-    else if n ≥ 1000000000000000000000000000000 then do
-      let (mid, d) ← div128Rem1e10 n
-      let (mid, c) ← div128Rem1e10 mid
-      let (hi, b) ← div128Rem1e10 mid
-      let a := hi % 2 ^ 32
-      let (buf, offset) ← fromU32 a buf
-      let (buf, offset) ← wd10alex buf b offset
-      let (buf, offset) ← wd10alex buf c offset
-      wd10alex buf d offset
-    else if n ≥ 100000000000000000000 then do
-      let (mid, lo) ← div128Rem1e10 n
-      let (hi, mid) ← div128Rem1e10 mid
-      let hi := hi % 2 ^ 64
-      let (buf, offset) ← fromU64 hi buf
-      let (buf, offset) ← wd10alex buf mid offset
-      wd10alex buf lo offset
-    else do
-      let (hi, lo) ← div128Rem1e10 n
-      let hi := hi % 2 ^ 64
-      let (buf, offset) ← fromU64 hi buf
-      wd10alex buf lo offset
+  onSlice buffer Lit.sliceU128 fun buf =>
+    if n < Lit.t4 then small4 128 buf n
+    else if n < Lit.t10 then mid10 buf n
+    else if n ≥ Lit.t30 then
+      -- 4 steps: (mid, d), (mid, c), (hi, b); `a = hi as u32`
+      div128Rem1e10 n >>= fun q1 => div128Rem1e10 q1.1 >>= fun q2 => div128Rem1e10 q2.1 >>= fun q3 =>
+      fromU32 (q3.1 % 2 ^ 32) buf >>= fun w0 =>
+      wd10alex w0.1 q3.2 w0.2 >>= fun w1 =>
+      wd10alex w1.1 q2.2 w1.2 >>= fun w2 =>
+      wd10alex w2.1 q1.2 w2.2
+    else if n ≥ Lit.t20 then
+      -- 3 steps
+      div128Rem1e10 n >>= fun q1 => div128Rem1e10 q1.1 >>= fun q2 =>
+      fromU64 (q2.1 % 2 ^ 64) buf >>= fun w0 =>
+      wd10alex w0.1 q2.2 w0.2 >>= fun w1 =>
+      wd10alex w1.1 q1.2 w1.2
+    else
+      -- 2 steps
+      div128Rem1e10 n >>= fun q1 =>
+      fromU64 (q1.1 % 2 ^ 64) buf >>= fun w0 =>
+      wd10alex w0.1 q1.2 w0.2
 
 /-- `Decimal::decimal` / `decimal_signed` by type width (`usize` = `u64`) -/
 def decimal (bits value : Nat) (signedCall : Bool) (buffer : Buf) : Res (Buf × Nat) :=
@@ -791,5 +785,72 @@ def writeInt (feats : Features) (t : IntTy) (radix : Nat) (reqSign checkValid : 
         if feats.format ∧ reqSign then withSign 43 buffer (writeMantissa feats bits radix value true)
         else writeMantissa feats bits radix value true buffer
   if len ≤ out.length then .ok (out, len) else .panic
+
+/-! ## per-function literal lists, in source order (equated with `Gen.Literals.*` in `Props/C03Tie.lean`)
+
+Named constants (`Lit.*`, the tables) are the ones the definitions above use; plain numerals are macro arm tags
+(`@3-4` ↦ `3, 4`), indices, `* 2`, `+ 1`, type widths and the like, whose role is fixed by the token-shape
+theorems of `Props/Literals/*.lean`. -/
+namespace Lits
+open Lit
+-- jeaiii.rs
+def next2 : List Nat := [next2Mul, hi32]
+def u128Divrem1e10 : List Nat := [e10D, e10Fast, e10FastShr, e10Factor, e10FactorShr]
+def writeN : List Nat := [1, 10, 1, 2, 1, 1, 2, 2, 2, 2, 4, alex4, alex4, 2, alex2, 2, alex2, 2, 2]
+def printN : List Nat := [2, 2, 2, hi32, 10, 1, 0, 2, 2, 2, 0, 2]
+def writeDigits : List Nat :=
+  [1, 1, 0, 2, 2, 0, 2,
+   3, m34, 1, 0, hi32, 2, 1, 2,
+   3, 4, 0, m34, 0, 1,
+   5, m56, 1, 0, hi32, 2, 1, 2, 2, 3, 2,
+   5, 6, 0, m56, 0, 2,
+   7, 8, 0, m78, s78, 3,
+   9, m9, s9, 1, 0, hi32, 2, 1, 2, 2, 3, 2, 2, 5, 2, 2, 7, 2,
+   10, m10, s10, 2, 0, hi32, 2, 2, 2, 2, 2, 4, 2, 2, 6, 2, 2, 8, 2,
+   10, m10u64, s10u64, 2, 0, hi32, 2, 2, 2, 2, 2, 4, 2, 2, 6, 2, 2, 8, 2,
+   10, 10, 4, 4, 2, 2, 10]
+def fromU8 : List Nat := [sliceU8, t2, 3, t1, 2, 1]
+def fromU16 : List Nat := [sliceU16, t4, 5, t2, 3, 4, t1, 2, 1]
+def fromU32 : List Nat := [sliceU32, t4, t2, 3, 4, t1, 2, 1, t8, t6, 7, 8, 5, 6, t9, 10, 9]
+def fromU64Impl : List Nat :=
+  [t10, sliceI64, sliceU64, t4, t2, 3, 4, t1, 2, 1, t9, 10, t8, 9, t6, 7, 8, 5, 6, 10]
+def fromU128 : List Nat :=
+  [sliceU128, t4, t2, 3, 4, t1, 2, 1, t10, t9, 10, t8, 9, t6, 7, 8, 5, 6, t30, 10, 10, 10, t20, 10, 10, 10]
+-- decimal.rs
+def fastLog10 : List Nat := [log10Mul, log10Shr]
+def fastDigitCount : List Nat := [32] ++ fastDigitCountTable ++ [32]
+def fallbackDigitCount : List Nat := [1]
+def decimalCount : List Nat := [19] ++ decimalTableU64 ++ [38] ++ decimalTableU128 ++ [8, 16, 32, 64, 128]
+def decimal : List Nat := [8, 16, 32, 64, 128]
+-- digit_count.rs
+def fastLog2 : List Nat := [1]
+def digitLog : List (List Nat) := [[1], [2, 1], [3, 1], [4, 1], [5, 1]]
+def digitCountMacro : List Nat := [2, 4, 8, 16, 32, 1, 32, 4, 16, 2, 1]
+def digitCount : List Nat :=
+  [2, 36, 10, 2, 2, 4, 4, 8, 8, 16, 16, 32, 32, 10, 2, 2, 4, 4, 8, 8, 16, 16, 32, 32, 0]
+-- algorithm.rs, compact.rs, radix.rs, write.rs, api.rs
+def algWriteDigitsMacro : List Nat := [2, 2, 1, 1, 1, 1]
+def algWriteDigitMacro : List Nat := [1, 1, 36, 1]
+def algWriteDigits : List Nat := [2, 36, 2, 32, 16]
+def algorithm : List Nat := [2, 36, 2]
+def algorithmU128 : List Nat := [2, 36, 2, 0, 0, 0, 0]
+def compact : List Nat := [128, 128, 0, 128, 1, 1]
+def radix : List Nat := [64]
+def writeInteger : List Nat := [10]
+def apiUnsigned : List Nat := [0, 1, 1]
+def apiSigned : List Nat := [0, 1, 1, 0, 1, 1]
+-- lexical-util: digit.rs, div128.rs, step.rs
+def digitToChar : List Nat := [36, 36]
+def digitToCharConst : List Nat := [10, 10, 10]
+def slowU128Divrem : List Nat := [64, 0, 65, 128, 0, 0, 1, 1, 127, 1, 1, 127, 1, 1]
+def u64Step : List Nat := [64]
+/-- the literal arguments of the call inside `u128_divrem_<r>` -/
+def divremArgs : Option DivRem → List Nat
+  | some (.pow2 mask shr) => [mask, shr]
+  | some (.slow d c) => [d, c]
+  | some (.moderate d f s) => [d, f, s]
+  | some (.fast d fa fs f s) => [d, fa, fs, f, s]
+  | none => []
+end Lits
 
 end LexVerif.Model.WriteInt
